@@ -106,6 +106,25 @@ func probeStrings() []string {
 			}
 		}
 	}
+	// every upper/lower-case spelling of every code of up to four letters ("PoC", "Poc", "pOC", ...)
+	for _, fam := range []string{"v3", "v2"} {
+		for _, d := range defsOf(fam) {
+			for _, c := range d.Codes {
+				if len(c.Code) > 4 {
+					continue
+				}
+				for m := 0; m < 1<<uint(len(c.Code)); m++ {
+					b := []byte(c.Code)
+					for k := range b {
+						if m&(1<<uint(k)) != 0 {
+							b[k] = strings.ToLower(string(b[k]))[0]
+						}
+					}
+					add(string(b))
+				}
+			}
+		}
+	}
 	add("XLMH")
 	add("LMH")
 	add("XNALP")
